@@ -2,6 +2,7 @@ package checks
 
 import (
 	"fmt"
+	"os"
 	"runtime"
 	"sort"
 	"strings"
@@ -161,7 +162,7 @@ func c19Build(c *Ctx, h *c19Hist) (d *c19DB, skip string) {
 	}
 	// settle: storage must hold exactly the live files (no obsolete table that Recover would resurrect)
 	settled := false
-	for try := 0; try < 3 && !settled; try++ {
+	for try := 0; try < 4 && !settled; try++ {
 		if err, hung := crCall(crWdTimeout, func() error { return leveldb.VerifWaitIdle(db) }); err != nil || hung {
 			go db.Close()
 			return nil, "settle-failed"
@@ -172,9 +173,36 @@ func c19Build(c *Ctx, h *c19Hist) (d *c19DB, skip string) {
 				time.Sleep(5 * time.Millisecond)
 			}
 		}
+		if !settled && os.Getenv("VERIF_C19_DEBUG") != "" {
+			s := leveldb.VerifDump(db)
+			var live []int64
+			for _, l := range s.Version.Levels {
+				for _, t := range l {
+					live = append(live, t.Num)
+				}
+			}
+			fmt.Fprintf(os.Stderr, "unsettled try %d: files %v live tables %v journal %d frozen %v manifest %d\n", try, d.st.Files(), live, s.JournalNum, s.HasFrozen, s.ManifestNum)
+		}
 		if !settled { // e.g. a double-referenced table that only a reopen sweeps: reopen and try again
 			if err, hung := crCall(crWdTimeout, db.Close); err != nil || hung || !open() {
 				return nil, "settle-reopen-failed"
+			}
+			// the reopen flushed the journal; a few small writes so that the newest data lives in a journal only
+			for j, n := 0, r.Intn(6); j < n; j++ {
+				k := gen.KeyFrom(r, univ)
+				if r.Chance(1, 3) {
+					if err, hung := crCall(crWdTimeout, func() error { return db.Delete(k, nil) }); err != nil || hung {
+						return nil, "history-call-failed"
+					}
+					apply([][3][]byte{{k, nil, {1}}})
+				} else {
+					nval++
+					v := []byte(fmt.Sprintf("%d-tail", nval))
+					if err, hung := crCall(crWdTimeout, func() error { return db.Put(k, v, nil) }); err != nil || hung {
+						return nil, "history-call-failed"
+					}
+					apply([][3][]byte{{k, v, nil}})
+				}
 			}
 		}
 	}
@@ -263,7 +291,7 @@ type c19Ver struct {
 func runC19(c *Ctx) {
 	c.Res.Rule = "settled DBs from random histories (150-400 puts/deletes/batches/large batches/CompactRange/reopen over 20-70 keys incl. the empty key and 0x00/0xff runs; tiny buffers so that several levels exist; the last writes stay in the journal; five comparers; bloom filter on/off; snappy on/off), closed once storage holds exactly the live files. Part A: manifest deleted / CURRENT cleared / manifest truncated at a random offset / manifest replaced by garbage, then leveldb.Recover: must succeed, full scan and every Get equal the plain map, then the DB is used (writes, CompactRange, Close) and reopened with Open with the expected contents. Part B: additionally 1-3 data blocks of live tables get one byte flipped (block boundaries from table.Reader.OffsetOf): Recover must succeed; every returned pair was written for that key at some time; every key whose newest version (value or tombstone, anywhere in the DB) lies outside the damaged blocks is returned with exactly that version; Get agrees with the scan. One evaluation = one recovered image; non-trivial = the DB had >= 2 tables and deletions (part B: at least one entry was in a damaged block); distinct by (history seed, variant, damage)."
 	once := &crSigOnce{}
-	n := c.Scale(160, 6000)
+	n := c.Scale(700, 20000)
 	par := runtime.GOMAXPROCS(0)
 	if par > 16 {
 		par = 16
@@ -360,6 +388,7 @@ func c19One(c *Ctx, once *crSigOnce, r *rng.R, i int) {
 		ents, blockOf, starts, err := crTableBlocks(data, fd, d.o)
 		if err != nil {
 			c.Res.Count("skipped", "table-unreadable-before-damage")
+			c.Res.Note("table %d of history %d unreadable before damage: %v", t.Num, h.Seed, err)
 			return
 		}
 		ti := &tinfo{fd: fd, data: data, blockOf: blockOf, starts: starts}
